@@ -107,7 +107,13 @@ func c18MergeFiles(r *rand.Rand, idx int, docs []map[string]any) Case {
 	var files []string
 	var fail []string
 	for i, d := range docs {
-		f, err := writeYamlDoc(dir, fmt.Sprintf("m%d_%d.yaml", idx, i), d)
+		nm := fmt.Sprintf("m%d_%d.yaml", idx, i)
+		if idx%3 == 0 { // (a look-alike without brackets lies next to it)
+			nm = fmt.Sprintf("m%d_[%d].yaml", idx, i)
+			_ = os.WriteFile(filepath.Join(dir, fmt.Sprintf("m%d_%d.yaml", idx, i)), []byte("look-alike: true\n"), 0o644)
+			defer os.Remove(filepath.Join(dir, fmt.Sprintf("m%d_%d.yaml", idx, i)))
+		}
+		f, err := writeYamlDoc(dir, nm, d)
 		if err != nil {
 			return Case{Kind: "mergeFiles", Desc: "cannot write temp files", Fail: []string{err.Error()}}
 		}
@@ -122,6 +128,14 @@ func c18MergeFiles(r *rand.Rand, idx int, docs []map[string]any) Case {
 	}
 	if rerr != nil {
 		fail = append(fail, "rendering mergeFiles failed: "+rerr.Error())
+	}
+	// a listed file that does not exist is an error, not a file to skip
+	if idx%4 == 1 {
+		missing := fmt.Sprintf(`{{ dom2json (mergeFiles (splitList "," %q)) }}`, strings.Join(append(append([]string{}, files...), filepath.Join(dir, "no-such-file.yaml")), ","))
+		var merr error
+		if pn := guard(func() { _, merr = tmplEngine().Render(missing, map[string]any{}) }); pn == "" && merr == nil {
+			fail = append(fail, "mergeFiles over a list naming a file that does not exist reported no error")
+		}
 	}
 	// expectation: left-to-right Merge with ListsMergeAppend of the loaded documents
 	var acc dom.ContainerBuilder = dom.Builder().Container()
